@@ -106,7 +106,7 @@ def FA(vs, body, pats):
     return z3.ForAll(vs, body, patterns=ps)
 
 
-NODE_LISTS = ('children', 'parents', 'compromised_by', 'tags')
+NODE_LISTS = ('children', 'parents', 'compromised_by')     # containers a node owns exclusively (tags may be shared with node.attributes)
 ATT_LISTS = ('entry_points', 'reached_attack_steps')
 GRAPH_CONT = ('nodes', 'attackers', '_id_to_node', '_full_name_to_node', '_id_to_attacker')
 
